@@ -805,7 +805,7 @@ def _final(rep, orig, case):
 
 
 MIXES = {'quick': ['i', 'U', 'if', 'ii', 'bO', 'iii', 'ifU', 'iiii', 'iiff', 'ifUO'],
-         'thorough': ['i', 'U', 'f', 'if', 'ii', 'bO', 'iii', 'ifU', 'UUb', 'fOi', 'iiii', 'iiff', 'ifUO', 'fiif', 'bOOM', 'ffff', 'iifU', 'Uiib']}
+         'thorough': ['i', 'U', 'f', 'if', 'ii', 'bO', 'iii', 'ifU', 'UUb', 'fOi', 'iiii', 'iiff', 'ifUO', 'fiif', 'iifU']}
 
 
 def frame_cases(tier, rows_for):
@@ -850,11 +850,11 @@ def assign_keys(n, tier):
 
 def _assign_frame_cases(tier, group):
     if tier == 'quick':
-        mixes = ['i', 'if', 'ii', 'iii', 'ifU', 'iiii', 'iiff'] if group == 'unlabelled' else ['i', 'if', 'iii', 'ifU', 'iiii', 'ifUO']
+        mixes = ['i', 'if', 'ii', 'iii', 'ifU', 'iiii', 'iiff'] if group == 'unlabelled' else ['i', 'if', 'ifU', 'iiii', 'ifUO']
         rows_for = lambda m: (3,) if m >= 3 else (2, 4) if m == 2 else (1, 3)
     else:
         mixes = MIXES['thorough']
-        rows_for = lambda m: (1, 2, 3, 4)
+        rows_for = (lambda m: (1, 2, 3, 4) if m < 4 else (2, 4)) if group == 'unlabelled' else (lambda m: (1, 2, 3, 4) if m < 3 else (2, 4) if m == 3 else (3,))
     out = []
     for kinds in mixes:
         for rows in rows_for(len(kinds)):
@@ -867,7 +867,7 @@ def _assign_frame_cases(tier, group):
     return out
 
 
-def _assign_pairs(fm, part, tier):
+def _assign_pairs(fm, part, tier, group='unlabelled'):
     nr, nc = fm.nrows, len(fm.kinds)
     if part == 'cols':
         for rk in rep_rows(nr, tier):
@@ -877,6 +877,8 @@ def _assign_pairs(fm, part, tier):
         reps = [('int', -1), ('ilist', [nc - 1, 0] if nc > 1 else [0])] + ([NULL, ('slice', None, None, -1), ('bool', [j % 2 == 0 for j in range(nc)])] if tier != 'quick' else [])
         for rk in assign_keys(nr, tier):
             for ck in S._dedupe(reps):
+                if tier == 'quick' and group == 'labelled' and rk[0] == 'slice' and ck[0] == 'ilist':
+                    continue
                 yield rk, ck
             yield rk, None
 
@@ -918,7 +920,7 @@ def _run_assign(repo, task, group):
                 f = fm.build()
                 snap = Orig(f)
                 cnt = 0
-                for rk, ck in _assign_pairs(fm, part, tier):
+                for rk, ck in _assign_pairs(fm, part, tier, group):
                     rs = rk[0] == 'int'
                     cs = ck is not None and ck[0] == 'int'
                     vs = _vspecs(rs, cs, group, tier)
@@ -1031,7 +1033,7 @@ def _dm_cases(tier):
         rows_for = lambda m: (3,) if m >= 3 else (2, 4) if m == 2 else (0, 1, 3)
     else:
         mixes = MIXES['thorough']
-        rows_for = lambda m: (0, 1, 2, 3, 4)
+        rows_for = lambda m: (0, 1, 2, 3, 4) if m < 4 else (1, 3, 4)
     out = []
     for kinds in mixes:
         for rows in rows_for(len(kinds)):
@@ -1222,7 +1224,7 @@ def eval_relabel(c, orig, model, how_r, how_c):
     import static_frame as sf
     is_frame = isinstance(c, sf.Frame)
     rax = model.rax if is_frame else model.ax
-    if rax.kind == 'ih' and how_r in ('map-partial', 'func', 'list'):
+    if rax.kind == 'ih' and (how_r in ('map-partial', 'func', 'list') or rax.n == 0):
         return outcome(True, nontrivial=False, how='skip')
     kw, exp_r, exp_c = {}, rax.norm, (model.cax.norm if is_frame else None)
     if how_r is not None:
